@@ -25,11 +25,14 @@ func checkC09(w *World, r *Report) {
 	r.Rule("VEST-REM", "last instalment takes the running remainder", 2)
 	r.Rule("VEST-ONCE", "release transfer ⇔ Released persisted for the same record", 3)
 	r.Rule("VEST-WRITERS", "vesting queue writers", 3)
+	r.Rule("VEST-DISTINCT", "release times are strictly increasing and after the end time (they key the queue)", 4)
 	vestingObligations(w, r, NewTerms(w))
+	r.Sub(checkC08, "TIME-REL", "FINISH-LAST")
 }
 
 // vestingObligations adds the VEST-* obligations (shared by C09 and, for the vesting escrow clause, C01).
 func vestingObligations(w *World, r *Report, tm *Terms) {
+	vestDistinct(w, r, tm)
 	bb := w.beginBlockFn()
 	tree := w.reachableFrom(bb)
 	ms := w.msgServerMethods()
@@ -150,16 +153,32 @@ func vestingObligations(w *World, r *Report, tm *Terms) {
 			continue
 		}
 		var share *Term
-		var remBases []*Term
-		for _, a := range amount.Alts() {
-			if a.Op == "call" && mathName(a) != "" {
-				share = a
-			} else if isField(a, "Amount") {
-				b := a.Args[0]
-				if b.Op == "rec" && b.V != nil {
-					b = tm.Of(fr, b.V) // unfold the cyclic reference once
+		var remAlts []*Term
+		var addAlt func(a *Term, depth int)
+		addAlt = func(a *Term, depth int) {
+			switch {
+			case depth > 3:
+			case a.Op == "rec" && a.V != nil:
+				for _, x := range tm.Of(fr, a.V).Alts() {
+					addAlt(x, depth+1)
 				}
-				remBases = append(remBases, b.Alts()...)
+			case isField(a, "Amount") && a.Args[0].Op == "rec" && a.Args[0].V != nil:
+				for _, x := range normField(tm.Of(fr, a.Args[0].V), "Amount", nil).Alts() {
+					addAlt(x, depth+1)
+				}
+			case isField(a, "Amount") && a.Args[0].Op == "phi":
+				for _, x := range normField(a.Args[0], "Amount", nil).Alts() {
+					addAlt(x, depth+1)
+				}
+			default:
+				remAlts = append(remAlts, a)
+			}
+		}
+		for _, a := range amount.Alts() {
+			if a.Op == "call" && isExcursionRoot(a) {
+				share = a
+			} else {
+				addAlt(a, 0)
 			}
 		}
 		// share: TruncateInt(MulTruncate(FromInt(total.Amount), weight of the keyed schedule entry))
@@ -174,7 +193,8 @@ func vestingObligations(w *World, r *Report, tm *Terms) {
 				}
 				return true
 			})
-			usesTotal := share.Any(func(t *Term) bool { return isField(t, "Amount") && t.Args[0].Key() == total.Key() })
+			totalAmtKey := normField(total, "Amount", nil).Key()
+			usesTotal := share.Any(func(t *Term) bool { return t.Key() == totalAmtKey || (isField(t, "Amount") && t.Args[0].Key() == total.Key()) })
 			keyEntry := false
 			if entry != nil {
 				for _, kc := range keyComponents(s.key) {
@@ -200,32 +220,55 @@ func vestingObligations(w *World, r *Report, tm *Terms) {
 		r.Check(okS, "VEST-SHARE", name+":share", w.instrPos(s.in), "a non-final instalment is floor(swept total × weight) of the schedule entry whose release time keys the record", whyS)
 		// remainder
 		okR, whyR := false, "no remainder alternative: the last instalment does not take what is left ("+amount.String()+")"
-		if len(remBases) > 0 {
+		if len(remAlts) > 0 {
+			totalAmt := normField(total, "Amount", nil)
 			initOK, updOK := false, false
-			for _, a := range remBases {
+			whyR = ""
+			for _, a := range remAlts {
+				// a subtraction "previous remainder − stored amount" in one of its spellings
+				var prev, sub *Term
 				switch {
-				case a.Key() == total.Key():
-					initOK = true
-				case a.Op == "call" && strings.HasSuffix(a.Name, sdkPath+".Coin.SubAmount") && len(a.Args) == 2:
-					// R' = R − stored amount (both cyclic references or the same phis)
-					updOK = a.Args[0].Op == "rec" || a.Args[0].Any(func(t *Term) bool { return t.Key() == total.Key() })
-					sub := a.Args[1]
-					if !(sub.Op == "rec" || matchRec(sub, amount)) {
-						updOK = false
-						whyR = "the running remainder is reduced by " + sub.String() + ", not by the amount that was stored"
+				case a.Key() == totalAmt.Key() || (isExcursionRoot(a) && share != nil && a.Key() == share.Key()):
+					if a.Key() == totalAmt.Key() {
+						initOK = true
 					}
-				case a.Op == "rec":
+					continue
+				case a.Op == "call" && mathName(a) == "Int.Sub" && len(a.Args) == 2:
+					prev, sub = a.Args[0], a.Args[1]
+				case isField(a, "Amount") && a.Args[0].Op == "call" && strings.HasSuffix(a.Args[0].Name, sdkPath+".Coin.SubAmount") && len(a.Args[0].Args) == 2:
+					prev, sub = a.Args[0].Args[0], a.Args[0].Args[1]
+				case isField(a, "Amount") && a.Args[0].Op == "call" && strings.HasSuffix(a.Args[0].Name, sdkPath+".Coin.Sub") && len(a.Args[0].Args) == 2:
+					prev, sub = a.Args[0].Args[0], normField(a.Args[0].Args[1], "Amount", nil)
+				case a.Op == "rec" || a.Op == "const":
+					continue
 				default:
-					whyR = "the running remainder has the alternative " + a.String()
+					whyR = "the stored amount has the unexpected alternative " + a.String()
+					continue
+				}
+				carried := prev.Any(func(t *Term) bool { return t.Op == "rec" || t.Key() == totalAmt.Key() || t.Key() == total.Key() })
+				same := sub.Op == "rec" || matchRec(sub, amount)
+				if !same {
+					for _, x := range amount.Alts() {
+						if matchRec(sub, x) {
+							same = true
+						}
+					}
+				}
+				switch {
+				case !carried:
+					whyR = "the remainder is not carried from the previous instalment: " + prev.String()
+				case !same:
+					whyR = "the running remainder is reduced by " + sub.String() + ", not by the amount that was stored"
+				default:
+					updOK = true
 				}
 			}
 			switch {
+			case whyR != "":
 			case !initOK:
 				whyR = "the running remainder does not start from the swept total"
 			case !updOK:
-				if !strings.HasPrefix(whyR, "the running remainder is reduced") {
-					whyR = "the running remainder is not reduced by each stored amount"
-				}
+				whyR = "the running remainder is not reduced by each stored amount"
 			default:
 				okR = true
 			}
@@ -329,6 +372,59 @@ func matchRec(a, b *Term) bool {
 		}
 	}
 	return true
+}
+
+// vestDistinct: the vesting queue is keyed by (auction id, release time); two instalments with the same release time
+// would overwrite each other. The message validation must therefore reject a release time that is not strictly after
+// the previous one, and one that is not strictly after the end time.
+func vestDistinct(w *World, r *Report, tm *Terms) {
+	isRel := func(t *Term) bool {
+		b := fieldBase(t, "ReleaseTime")
+		return b != nil && b.Op == "elem"
+	}
+	for _, mt := range []string{"MsgCreateFixedPriceAuction", "MsgCreateBatchAuction"} {
+		fn := w.methodOf(w.lookupNamed(typesPath, mt), "ValidateBasic")
+		if fn == nil {
+			continue
+		}
+		for _, which := range []string{"previous release time", "end time"} {
+			which := which
+			other := func(t *Term) bool {
+				if isRel(t) || t.Op == "const" {
+					return false
+				}
+				isEnd := fieldBase(t, "EndTime") != nil
+				if which == "end time" {
+					return isEnd
+				}
+				return !isEnd && fieldBase(t, "StartTime") == nil
+			}
+			var bad []string
+			evaluated := false
+			for _, o := range []int{-1, 0, 1} {
+				rule := newOrdRule(w, func(*Effect) bool { return false }, ordPair{ord: o, match: pairOf(isRel, other)})
+				accepted := false
+				for _, out := range NewExplorer(w, tm, rule).Run(fn, 0) {
+					if out.St&1 == 0 || out.Kind != ExitReturn {
+						continue
+					}
+					evaluated = true
+					if av, ok := out.ErrAV(fn); ok && av.K != avNonNil {
+						accepted = true
+					}
+				}
+				if accepted != (o > 0) {
+					bad = append(bad, fmt.Sprintf("release time %s %s: accepted=%v", ordNames[o], which, accepted))
+				}
+			}
+			if !evaluated {
+				bad = append(bad, "the comparison is never evaluated")
+			}
+			r.Check(len(bad) == 0, "VEST-DISTINCT", mt+":"+strings.ReplaceAll(which, " ", "-"), w.pos(fn.Pos()),
+				mt+".ValidateBasic accepts a schedule entry only if its release time is strictly after the "+which,
+				strings.Join(bad, "; ")+": two instalments may share a release time; the queue is keyed by (auction, release time), so one record overwrites the other and its share stays locked in the vesting escrow")
+		}
+	}
 }
 
 // pairRule: A (pending) must be followed by B before the enclosing loop's header is re-entered or the function succeeds.
@@ -439,13 +535,14 @@ func remainderSelection(w *World, tm *Terms, fn *ssa.Function, fr *Frame, val *T
 						et := tm.Of(fr, ph.Edges[i])
 						allAmt, carried := true, false
 						for _, a := range et.Alts() {
-							if !isField(a, "Amount") {
-								allAmt = false
+							if isExcursionRoot(a) {
+								allAmt = false // a freshly computed share, not the remainder
 								continue
 							}
-							b := a.Args[0]
-							if b.Op == "rec" || b.Any(func(t *Term) bool { return t.Op == "call" && strings.HasSuffix(t.Name, ".Coin.SubAmount") }) {
-								carried = true // the loop-carried remainder, not a fresh coin
+							if a.Any(func(t *Term) bool {
+								return t.Op == "rec" || (t.Op == "call" && (strings.HasSuffix(t.Name, ".Coin.SubAmount") || strings.HasSuffix(t.Name, ".Coin.Sub") || mathName(t) == "Int.Sub"))
+							}) {
+								carried = true // the loop-carried remainder
 							}
 						}
 						if allAmt && carried {
